@@ -507,12 +507,21 @@ def project_lists_follow_selection(prop="C05"):
     if nml_at:
         st = body[nml_at[-1]]
         src = ast.unparse(st.value)
-        ok = nml_at[-1] > prune_at[0] and isinstance(st.value, ast.ListComp) and src.startswith("[nml for nml in self.namelists if") and "is_displayed(nml)" in src
-        helper = [d for d in body if isinstance(d, ast.FunctionDef) and d.name == "is_displayed"]
-        ok = ok and len(helper) == 1 and "getattr(entity, 'visible', True)" in ast.unparse(helper[0]) and "getattr(entity, 'parent', None)" in ast.unparse(helper[0])
+        # the visibility walk: a helper called on the namelist in the filter - nested in correlate, or a function of the module - that follows `parent` and reads `visible`
+        _, tree = loader.module_source("ford.fortran_project")
+        defs = {d.name: d for d in list(tree.body) + list(ast.walk(fn)) if isinstance(d, ast.FunctionDef)}
+        called = [ast.unparse(c.func).split(".")[-1] for c in ast.walk(st.value) if isinstance(c, ast.Call) and c.args and ast.unparse(c.args[0]) == "nml"] if isinstance(st.value, ast.ListComp) else []
+        walks = [n for n in called if n in defs and "'visible', True)" in ast.unparse(defs[n]) and "'parent', None)" in ast.unparse(defs[n])]
+        ok = nml_at[-1] > prune_at[0] and isinstance(st.value, ast.ListComp) and src.startswith("[nml for nml in self.namelists if") and bool(walks)
         # ... and that its own parent still lists (prune() removes a namelist the display options exclude from `parent.namelists`; `visible` is always true for a namelist)
         ok = ok and "nml in getattr(nml.parent, 'namelists'" in src
-    out.append(OR(id=f"{prop}.S.Project.correlate.namelists_filtered_after_prune", status=PROVED if ok else REFUTED, kind="S", role="post", backend="ast", target=tgt,
-                  desc="project.namelists (filled while parsing) is reduced, after pruning, to the namelists that their parent still lists and all of whose ancestors are displayed",
-                  witness=None if ok else {"assignments to self.namelists in correlate": [ast.unparse(body[i])[:160] for i in nml_at]}))
+    r = OR(id=f"{prop}.S.Project.correlate.namelists_filtered_after_prune", status=PROVED, kind="S", role="post", backend="ast", target=tgt,
+           desc="project.namelists (filled while parsing) is reduced, after pruning, to the namelists that their parent still lists and all of whose ancestors are displayed",
+           witness=None if ok else {"assignments to self.namelists in correlate": [ast.unparse(body[i])[:160] for i in nml_at]})
+
+    def _standin():
+        from bounded import c05
+        return c05.hidden_procedure_namelist() or c05.site_cases(only="private_namelist")
+    from contracts import astform
+    out.append(astform.decide(r, ok, _standin))
     return out
